@@ -156,6 +156,16 @@ theorem getAttr_conforms (hE : EnvOK E) (c : Nat) (fs : Flds) (a : Nat) (sp : At
     · exact absurd h' hne
     · exact Or.inr (h'.1 sp hsp)
 
+theorem specOf_inst' {recv : Val} {a : Nat} {sp : AttrSpec} (h : specOf E recv a = some sp) :
+    ∃ c fs, recv = .inst c fs ∧ E.attr? c a = some sp := by
+  unfold specOf classOf at h
+  cases recv with
+  | inst c fs => exact ⟨c, fs, rfl, by simpa [Option.bind] using h⟩
+  | sc s => simp [Option.bind] at h
+  | list xs => simp [Option.bind] at h
+  | set xs => simp [Option.bind] at h
+  | dict kvs => simp [Option.bind] at h
+
 theorem wt_allMissing (c : Nat) (attrs : List AttrSpec) : WT E (.inst c (allMissing attrs)) := by
   induction attrs with
   | nil => rfl
@@ -254,6 +264,60 @@ theorem wtVals_dedup : ∀ (ys acc : Vals), wtVals E ys = true → wtVals E acc 
     · rw [wtVals_snoc]; simp [h2, h1.1]
 
 
+/-! ## invalidation keeps instances well typed -/
+
+theorem wt_resetDependant (hE : EnvOK E) (obj : Val) (d : Nat) (h : WT E obj) : WT E (resetDependant E obj d) := by
+  unfold resetDependant
+  cases hsp : specOf E obj d with
+  | none => exact h
+  | some sp =>
+    simp only []
+    obtain ⟨c, fs, rfl, hattr⟩ := SpecVerif.C03.Proofs.specOf_inst' E hsp
+    split
+    · exact wt_setField E d MISSING ⟨fs, rfl⟩ h (Or.inl rfl)
+    · split
+      · rename_i hconf
+        apply wt_setField E d _ ⟨fs, rfl⟩ h
+        right
+        refine ⟨?_, hE.defaultWT c d sp hattr⟩
+        intro sp' hsp'
+        rw [hattr] at hsp'; cases hsp'
+        exact hconf
+      · exact h
+
+theorem wt_invalidateAux (hE : EnvOK E) (names : List Nat) :
+    ∀ (k : Nat) (obj : Val) (a : Nat), WT E obj → WT E (invalidateAux E names k obj a)
+  | 0, obj, a, h => h
+  | k+1, obj, a, h => by
+    simp only [invalidateAux]
+    have : ∀ (l : List Nat) (init : Val), WT E init →
+        WT E (l.foldl (fun acc d =>
+          if dependsOn E acc d a then invalidateAux E names k (resetDependant E acc d) d else acc) init) := by
+      intro l
+      induction l with
+      | nil => intro init hi; exact hi
+      | cons x xs ih =>
+        intro init hi
+        simp only [List.foldl]
+        apply ih
+        split
+        · exact wt_invalidateAux hE names k _ x (wt_resetDependant E hE init x hi)
+        · exact hi
+    exact this names obj h
+
+theorem wt_invalidate (hE : EnvOK E) (obj : Val) (a : Nat) (h : WT E obj) : WT E (E.invalidate obj a) := by
+  unfold Env.invalidate
+  cases obj with
+  | inst c fs =>
+    simp only []
+    split
+    · exact wt_invalidateAux E hE _ _ _ a h
+    · exact h
+  | sc s => exact h
+  | list xs => exact h
+  | set xs => exact h
+  | dict kvs => exact h
+
 /-! ## the stages of `mutate_value` keep values well typed -/
 
 /-- the arguments of `mutate_value` are well typed / well behaved -/
@@ -328,6 +392,7 @@ theorem wt_mvConstruct (ctor : Nat → Kw → Except Err Val) (hc : CtorOK E cto
       | coll d =>
         rw [hct] at h; simp at h; rw [← h.1]; exact wt_ctor_coll E ty d hct
       | uncallable => rw [hct] at h; cases h
+      | noinst => rw [hct] at h; cases h
     cases v with
     | dict kvs =>
       simp only [] at h
@@ -357,6 +422,7 @@ theorem wt_mvConstruct (ctor : Nat → Kw → Except Err Val) (hc : CtorOK E cto
             · cases h
           | coll d => rw [hct] at h; cases h
           | uncallable => rw [hct] at h; cases h
+          | noinst => rw [hct] at h; cases h
       · cases h; exact hv
     | sc s =>
       simp only [] at h
@@ -417,7 +483,7 @@ theorem wt_mvAttrTransforms (hE : EnvOK E) (set : Val → Nat → Val → Except
   exact this kt v r hk hv h
 
 /-- `mutate_value` at fuel `n+1` from the callees at fuel `n` -/
-theorem wt_mutateValue_succ (hE : EnvOK E) (n : Nat) (hc : CtorOK E (construct E n)) (hs : SetOK E (setAttrV E n))
+theorem wt_mutateValue_succ (hE : EnvOK E) (n : Nat) (hc : CtorOK E (construct E n)) (hs : SetOK E (setAttrV E n false))
     (old : Val) (p : MV) (r : Val) (ho : WT E old) (hp : MVOK E p) (h : mutateValue E (n+1) old p = .ok r) :
     WT E r := by
   rw [mutateValue] at h
@@ -439,7 +505,7 @@ theorem wt_mutateValue_succ (hE : EnvOK E) (n : Nat) (hc : CtorOK E (construct E
 
 structure Knot (n : Nat) : Prop where
   mv : ∀ old p r, WT E old → MVOK E p → mutateValue E n old p = .ok r → WT E r
-  set : SetOK E (setAttrV E n)
+  set : ∀ skip, SetOK E (setAttrV E n skip)
   prep : ∀ inst sp v kw r, WT E inst → WT E v → (∀ kv ∈ kw, WT E kv.2) →
     prepareAttrValue E n inst sp v kw = .ok r → WT E r
   coll : ∀ inst sp v r, WT E inst → WT E v → collPrepare E n inst sp v = .ok r → WT E r
@@ -478,8 +544,9 @@ theorem mvok_transform (f : Option Tr) (kt : KwT) (ty : Option Ty) (hf : ∀ g, 
   transform := hf
   attrTransforms := hk
 
-theorem mutateAttrV_wt {obj : Val} {c a : Nat} {sp : AttrSpec} {pv r : Val} (hi : IsInst c obj) (ho : WT E obj)
-    (hsp : E.attr? c a = some sp) (hpv : WT E pv) (h : mutateAttrV E obj sp pv = .ok r) : WT E r := by
+theorem mutateAttrV_wt (hE : EnvOK E) {obj : Val} {c a : Nat} {sp : AttrSpec} {pv r : Val} {skip : Bool}
+    (hi : IsInst c obj) (ho : WT E obj)
+    (hsp : E.attr? c a = some sp) (hpv : WT E pv) (h : mutateAttrV E skip obj sp pv = .ok r) : WT E r := by
   unfold mutateAttrV at h
   split at h
   · cases h; exact ho
@@ -488,18 +555,22 @@ theorem mutateAttrV_wt {obj : Val} {c a : Nat} {sp : AttrSpec} {pv r : Val} (hi 
     · rename_i hconf
       cases h
       have hname := attr?_name E hsp
-      apply wt_setField E sp.name pv hi ho
-      right
-      refine ⟨?_, hpv⟩
-      intro sp' hsp'
-      rw [hname, hsp] at hsp'
-      cases hsp'
-      simpa using hconf
+      have hnew : WT E (obj.setField sp.name pv) := by
+        apply wt_setField E sp.name pv hi ho
+        right
+        refine ⟨?_, hpv⟩
+        intro sp' hsp'
+        rw [hname, hsp] at hsp'
+        cases hsp'
+        simpa using hconf
+      split
+      · exact hnew
+      · exact wt_invalidate E hE _ _ hnew
 
 theorem knot (hE : EnvOK E) : ∀ n, Knot E n
   | 0 => {
       mv := by intro old p r _ _ h; rw [mutateValue] at h; cases h
-      set := by intro obj a v r _ _ h; rw [setAttrV] at h; cases h
+      set := by intro skip obj a v r _ _ h; rw [setAttrV] at h; cases h
       prep := by intro inst sp v kw r _ _ _ h; rw [prepareAttrValue] at h; cases h
       coll := by intro inst sp v r _ _ h; rw [collPrepare] at h; cases h
       addSeq := by intro inst sp items acc r _ _ _ h; rw [addItemsSeq] at h; cases h
@@ -507,9 +578,9 @@ theorem knot (hE : EnvOK E) : ∀ n, Knot E n
       ctor := by intro c kw r _ h; rw [construct] at h; cases h }
   | n+1 =>
     have ih := knot hE n
-    { mv := fun old p r ho hp h => wt_mutateValue_succ E hE n ih.ctor ih.set old p r ho hp h
+    { mv := fun old p r ho hp h => wt_mutateValue_succ E hE n ih.ctor (ih.set false) old p r ho hp h
       set := by
-        intro obj a v r ho hv h
+        intro skip obj a v r ho hv h
         cases obj with
         | inst c fs =>
           rw [setAttrV] at h
@@ -530,7 +601,7 @@ theorem knot (hE : EnvOK E) : ∀ n, Knot E n
             | ok pv =>
               rw [hp] at h; simp only [] at h
               have hpv := ih.prep _ sp v [] pv ho hv (by intro kv hkv; cases hkv) hp
-              exact mutateAttrV_wt E ⟨fs, rfl⟩ ho hsp hpv h
+              exact mutateAttrV_wt E hE ⟨fs, rfl⟩ ho hsp hpv h
         | sc s => rw [setAttrV] at h <;> first | cases h | (intros; simp_all)
         | list xs => rw [setAttrV] at h <;> first | cases h | (intros; simp_all)
         | set xs => rw [setAttrV] at h <;> first | cases h | (intros; simp_all)
@@ -594,6 +665,7 @@ theorem knot (hE : EnvOK E) : ∀ n, Knot E n
           | lit cs => rw [hty] at h; exact hseq Val.list (fun ys hys => hys) h
           | union a b => rw [hty] at h; exact hseq Val.list (fun ys hys => hys) h
           | spec c => rw [hty] at h; exact hseq Val.list (fun ys hys => hys) h
+          | valid b p => rw [hty] at h; exact hseq Val.list (fun ys hys => hys) h
         · cases h; exact hv0wt
       addSeq := by
         intro inst sp items acc r hi hitems hacc h
@@ -673,7 +745,7 @@ theorem knot (hE : EnvOK E) : ∀ n, Knot E n
                         | some kv =>
                           rw [hf] at hg; simp at hg; subst hg
                           exact hk kv (List.mem_of_find?_eq_some hf)
-                  exact ⟨ih.set acc a _ r' hacc.1 hiv hstep, setAttrV_isInst E hacc.2 hstep⟩ }
+                  exact ⟨ih.set true acc a _ r' hacc.1 hiv hstep, setAttrV_isInst E hacc.2 hstep⟩ }
 
 
 /-! ## the helpers keep the receiver and the result well typed -/
@@ -708,7 +780,7 @@ theorem specOf_inst {recv : Val} {a : Nat} {sp : AttrSpec} (h : specOf E recv a 
   | set xs => simp [Option.bind] at h
   | dict kvs => simp [Option.bind] at h
 
-theorem outOK_mutateAttr (recv : Val) (a : Nat) (sp : AttrSpec) (pv : Val) (i : Bool)
+theorem outOK_mutateAttr (hE : EnvOK E) (recv : Val) (a : Nat) (sp : AttrSpec) (pv : Val) (i : Bool)
     (hsp : specOf E recv a = some sp) (h : WT E recv) (hpv : WT E pv) : OutOK E (mutateAttr E recv sp pv i) := by
   obtain ⟨c, fs, rfl, hattr⟩ := specOf_inst E hsp
   unfold mutateAttr
@@ -718,7 +790,7 @@ theorem outOK_mutateAttr (recv : Val) (a : Nat) (sp : AttrSpec) (pv : Val) (i : 
     · trivial
     · rename_i hconf
       have hname := attr?_name E hattr
-      have hnew : WT E ((Val.inst c fs).setField sp.name pv) := by
+      have hnew0 : WT E ((Val.inst c fs).setField sp.name pv) := by
         apply wt_setField E sp.name pv ⟨fs, rfl⟩ h
         right
         refine ⟨?_, hpv⟩
@@ -726,6 +798,7 @@ theorem outOK_mutateAttr (recv : Val) (a : Nat) (sp : AttrSpec) (pv : Val) (i : 
         rw [hname, hattr] at hsp'
         cases hsp'
         simpa using hconf
+      have hnew := wt_invalidate E hE _ sp.name hnew0
       split
       · exact ⟨hnew, hnew⟩
       · exact ⟨h, hnew⟩
@@ -741,7 +814,7 @@ theorem outOK_withAttr (hE : EnvOK E) (n : Nat) (recv : Val) (a : Nat) (sp : Att
     · cases hp : prepareAttrValue E n recv sp v kw with
       | error e => trivial
       | ok pv =>
-        exact outOK_mutateAttr E recv a sp pv i hsp h ((knot E hE n).prep recv sp v kw pv h hv hk hp)
+        exact outOK_mutateAttr E hE recv a sp pv i hsp h ((knot E hE n).prep recv sp v kw pv h hv hk hp)
 
 theorem outOK_updateAttr (hE : EnvOK E) (n : Nat) (recv : Val) (a : Nat) (sp : AttrSpec) (v : Val) (kw : Kw)
     (i cnd : Bool) (hsp : specOf E recv a = some sp) (h : WT E recv) (hv : WT E v) (hk : ∀ kv ∈ kw, WT E kv.2) :
@@ -782,13 +855,13 @@ theorem wt_delAttrV (hE : EnvOK E) (n : Nat) (recv : Val) (a : Nat) (sp : AttrSp
   · split at hd
     · cases hd
     · cases hd
-      exact wt_setField E sp.name MISSING ⟨fs, rfl⟩ h (Or.inl rfl)
+      exact wt_invalidate E hE _ _ (wt_setField E sp.name MISSING ⟨fs, rfl⟩ h (Or.inl rfl))
   · cases hp : prepareAttrValue E n (.inst c fs) sp sp.defaultVal [] with
     | error e => rw [hp] at hd; cases hd
     | ok pv =>
       rw [hp] at hd; simp only [] at hd
       have hpv := (knot E hE n).prep _ sp _ [] pv h (hE.defaultWT c a sp hattr) (by intro kv hkv; cases hkv) hp
-      exact mutateAttrV_wt E ⟨fs, rfl⟩ h hattr hpv hd
+      exact mutateAttrV_wt E hE ⟨fs, rfl⟩ h hattr hpv hd
 
 theorem outOK_resetAttr (hE : EnvOK E) (n : Nat) (recv : Val) (a : Nat) (sp : AttrSpec) (i cnd : Bool)
     (hsp : specOf E recv a = some sp) (h : WT E recv) : OutOK E (resetAttr E n recv sp i cnd) := by
@@ -860,7 +933,7 @@ theorem wt_resetAllV (hE : EnvOK E) (n c : Nat) (cs : ClassSpec) (hcs : E.cls? c
         split at hd
         · split at hd
           · cases hd
-          · cases hd; exact ⟨_, rfl⟩
+          · cases hd; exact isInst_invalidate E _ ⟨_, rfl⟩
         · split at hd
           · cases hd
           · exact mutateAttrV_isInst E ⟨fs, rfl⟩ hd
@@ -1355,6 +1428,7 @@ theorem elemColl_ok (hE : EnvOK E) (n c : Nat) (fs : Flds) (a : Nat) (sp : AttrS
   | lit cs => rw [hty] at h; cases h
   | union x y => rw [hty] at h; cases h
   | spec c' => rw [hty] at h; cases h
+  | valid b p => rw [hty] at h; cases h
 
 
 /-- The states an API history can reach: an instance built by the constructor (keywords of any kind,
